@@ -124,6 +124,43 @@ func (r *rw) rewriteFile(f *ast.File) string {
 		r.collect(d, &edits)
 	}
 	out := r.apply(r.off(f.Pos()), r.off(f.End()), edits)
+	// Package-level channels made at initialisation (var c = make(chan T)) belong to no bubble:
+	// a goroutine blocked on one is not durably blocked and the simulated run would hang in
+	// real time. They are made anew at the start of every run, inside the run's bubble.
+	var reinit []string
+	for _, d := range f.Decls {
+		gd, ok := d.(*ast.GenDecl)
+		if !ok || gd.Tok != token.VAR {
+			continue
+		}
+		for _, sp := range gd.Specs {
+			vs, ok := sp.(*ast.ValueSpec)
+			if !ok || len(vs.Values) != len(vs.Names) {
+				continue
+			}
+			for i, name := range vs.Names {
+				obj := r.info.Defs[name]
+				if obj == nil || name.Name == "_" {
+					continue
+				}
+				if _, isChan := obj.Type().Underlying().(*types.Chan); !isChan {
+					continue
+				}
+				call, ok := vs.Values[i].(*ast.CallExpr)
+				if !ok {
+					continue
+				}
+				if id, ok := call.Fun.(*ast.Ident); !ok || id.Name != "make" {
+					continue
+				}
+				reinit = append(reinit, name.Name+" = "+string(r.src[r.off(call.Pos()):r.off(call.End())]))
+				r.count("global_chan_reinit")
+			}
+		}
+	}
+	if len(reinit) > 0 {
+		out += "\n\nfunc init() {\n\tsimrt.RegisterGlobalReinit(func() {\n\t\t" + strings.Join(reinit, "\n\t\t") + "\n\t})\n}\n"
+	}
 	if !r.used {
 		return string(r.src)
 	}
